@@ -297,6 +297,24 @@ def drive_b(rec, n, full, quick):
                                       {"fns": names, "N": n, "p": p})
                 ev["_p"] = p
                 events.append(ev)
+    # a large dimension, every exponent close to 0, N and 2N (a kernel may treat short shifts, or shifts just past the sign change, on a
+    # path of its own): the kernels against the reference map
+    if n in ((16384,) if quick else (4096, 16384, 65536)):
+        near = sorted(set(list(range(0, 161)) + list(range(n - 160, n + 161)) + list(range(2 * n - 160, 2 * n))))
+        for kind in ("rot", "aut", "mxp"):
+            for (nm, k, ip, dt) in KERNELS:
+                if k != kind:
+                    continue
+                if not rec.progress("%s(N=%d) for every exponent close to 0, N and 2N" % (nm, n)):
+                    continue
+                for p in near:
+                    pp = p | 1 if kind == "aut" else p
+                    got = run_kernel(L, nm, ip, dt, n, pp, probe)
+                    scaled += 1
+                    if got is None or not np.array_equal(got, ref_map_np(kind, n, pp, probe)):
+                        rec.violation("%s(N=%d,p=%d) differs from the reference map" % (nm, n, pp), {"fn": nm, "N": n, "p": pp})
+                        break
+                rec.case((nm, n, "near-boundary exponents"))
     if W:
         W.close()
     rec.data["events"] = events
